@@ -100,6 +100,40 @@ def tr(e, cx: Ctx) -> str:
             return f'(((List.zip {xs} {ys}).map fun x => {body}).sum)'
     refuse(R, e, f'expression outside the grammar: {u}')
 
+REQUIRE = {'_require_component': ('component', 'component_id'), '_require_node': ('node', 'node_id')}
+REQUIRE_BODIES = {
+    '_require_component': "if component_id not in [component.id for component in circuit.components if component.type != 'ground']:\n    raise KeyError(component_id)",
+    '_require_node': "if node_id not in [node for component in circuit.components for node in component.nodes]:\n    raise KeyError(node_id)",
+}
+
+def strip_requires(fn: ast.FunctionDef, rel: str):
+    """leading `_require_component(self.circuit, component_id)` / `_require_node(self.circuit, node_id)`
+    statements: returns (remaining statements, kind or None)"""
+    stmts = list(fn.body)
+    kind = None
+    while stmts and isinstance(stmts[0], ast.Expr) and isinstance(stmts[0].value, ast.Call) \
+            and dotted(stmts[0].value.func) in REQUIRE:
+        c = stmts[0].value
+        k, arg = REQUIRE[dotted(c.func)]
+        if [ast.unparse(a) for a in c.args] != ['self.circuit', arg] or c.keywords:
+            refuse(rel, stmts[0], 'identifier check is not `_require_*(self.circuit, <id>)`')
+        kind = k
+        stmts.pop(0)
+    return stmts, kind
+
+def guard_kind(fn: ast.FunctionDef, rel: str, guarded_own: dict):
+    """how the getter validates its identifier before doing anything else: 'component' / 'node'
+    (direct `_require_*` call, or its first statement calls a getter of the same class that does), or 'none'"""
+    stmts, kind = strip_requires(fn, rel)
+    if kind is not None:
+        return kind
+    if stmts and isinstance(stmts[0], ast.Assign) and isinstance(stmts[0].value, ast.Call):
+        f = dotted(stmts[0].value.func) or ''
+        if f.startswith('self.') and guarded_own.get(f[5:], 'none') != 'none' and len(stmts[0].value.args) == 1 \
+                and isinstance(stmts[0].value.args[0], ast.Name):
+            return guarded_own[f[5:]]
+    return 'none'
+
 def body_expr(fn: ast.FunctionDef, cx: Ctx) -> str:
     """straight-line body: local assignments, an optional `if self.peak_values: return A`, a final return"""
     cx.env = {}
@@ -121,7 +155,7 @@ def body_expr(fn: ast.FunctionDef, cx: Ctx) -> str:
 def lambda_body(fn: ast.FunctionDef, cx: Ctx) -> str:
     """TimeDomainSolution: assignments, then `return np.vectorize(lambda t: E)` or `return lambda t: E`"""
     cx.env = {}
-    stmts = list(fn.body)
+    stmts, _ = strip_requires(fn, cx.rel)
     while stmts and isinstance(stmts[0], ast.Assign):
         st = stmts.pop(0)
         if len(st.targets) != 1 or not isinstance(st.targets[0], ast.Name):
@@ -259,12 +293,33 @@ def gen_solution(src) -> str:
         g = ms.get(m)
         arg = 'node_id' if m == 'get_potential' else 'component_id'
         want = f'{var} = np.array([solution.{m}({arg}) for solution in self._solutions])\nreturn self._series({var})'
-        if g is None or '\n'.join(ast.unparse(st) for st in g.body) != want:
+        if g is None or '\n'.join(ast.unparse(st) for st in strip_requires(g, rel)[0]) != want:
             refuse(rel, g or cs['FrequencyDomainSolution'], f'FrequencyDomainSolution.{m} is not `_series` of the per-frequency values')
     out.append('/-! ### FrequencyDomainSolution -/\n\n')
     out.append(SERIES_LEAN)
     out.append('\n/-- every getter is `_series` of the per-frequency peak values of ComplexSolution -/\n')
     out.append('def fd_get [DecidableEq K] (conj : K → K) (oneSided : Bool) (w values : List K) : List K × List K :=\n'
                '  fd_series conj oneSided w values\n')
+    # ---- identifier validation of the getters that iterate over a (possibly empty) list of solutions
+    tree = parse(src, rel)
+    fns = {st.name: st for st in tree.body if isinstance(st, ast.FunctionDef)}
+    defined = []
+    for name, want in REQUIRE_BODIES.items():
+        f = fns.get(name)
+        if f is not None:
+            if [a.arg for a in f.args.args] != ['circuit', REQUIRE[name][1]] or '\n'.join(ast.unparse(st) for st in f.body) != want:
+                refuse(rel, f, f'{name} is not the membership test the model assumes')
+            defined.append(name)
+    rows = []
+    for cname in ('TimeDomainSolution', 'FrequencyDomainSolution'):
+        ms = need(cname)
+        guarded = {}
+        for m in ('get_voltage', 'get_current', 'get_potential', 'get_power'):
+            guarded[m] = guard_kind(ms[m], rel, guarded)
+            rows.append(f'("{cname}", "{m}", "{guarded[m]}")')
+    out.append('\n/-! ### identifier validation (`_require_component`: id of a non-ground component, else KeyError;\n'
+               '`_require_node`: a terminal of some component, else KeyError) before the getter touches its list of solutions -/\n\n')
+    out.append('def requireDefined : List String := [' + ', '.join(f'"{d}"' for d in defined) + ']\n\n')
+    out.append('def requireTable : List (String × String × String) := [\n  ' + ',\n  '.join(rows) + ']\n')
     out.append('\nend\nend CC.Gen.Sol\n')
     return ''.join(out)
